@@ -117,7 +117,9 @@ SHAPES = {"VV": 0, "LV": 1, "VL": 2}
 def legacy_templates():
     """-> list of (aop constructor, (k, signed, dec), shape, lit, IRnode) in a fixed order.
     shape VV: operands are the IR variables x, y; LV: x is the literal `lit`; VL: y is the literal `lit`."""
+    from vyper import ast as vy_ast
     from vyper.codegen import arithmetic as A
+    from vyper.codegen.expr import Expr
     from vyper.codegen.ir_node import IRnode
     from vyper.exceptions import StaticAssertionException
     out = []
@@ -127,7 +129,10 @@ def legacy_templates():
             x = IRnode.from_list("x", typ=T)
             y = IRnode.from_list("y", typ=T)
             for name, f in fns:
-                out.append((name, (k, s, d), "VV", 0, f(x, y)))
+                # variable operands: through the real AST-operator dispatch (Expr.handle_binop, also used by AugAssign)
+                cls = {"AAdd": "Add", "ASub": "Sub", "AMul": "Mult", "ADiv": "Div" if d else "FloorDiv", "AMod": "Mod"}[name]
+                opn = getattr(vy_ast, cls).__new__(getattr(vy_ast, cls))
+                out.append((name, (k, s, d), "VV", 0, Expr.handle_binop(opn, x, y, None)))
             if s:
                 out.append(("AUSub", (k, s, d), "VV", 0, legacy_usub(x)))
             for lit in lit_values(k, s, d):
@@ -207,6 +212,7 @@ def vtemplate_term(instrs, r):
 
 def venom_templates():
     """-> list of (aop, (k, s, d), shape, lit, (instrs, result)); shapes as for legacy_templates."""
+    from vyper import ast as vy_ast
     from vyper.codegen_venom import arithmetic as V
     from vyper.venom.basicblock import IRLiteral
     out = []
@@ -224,7 +230,11 @@ def venom_templates():
                 return ins, r
 
             for name, f in fns:
-                out.append((name, (k, s, d), "VV", 0, rec(f, "VV", 0)))
+                # variable operands: through the real dispatch arithmetic.apply_binop (BinOp and AugAssign)
+                cls = {"AAdd": "Add", "ASub": "Sub", "AMul": "Mult", "ADiv": "Div" if d else "FloorDiv", "AMod": "Mod"}[name]
+                opn = getattr(vy_ast, cls).__new__(getattr(vy_ast, cls))
+                ins, r, x_, y_ = venom_record(lambda b, px, py: V.apply_binop(b, opn, px, py, T))
+                out.append((name, (k, s, d), "VV", 0, (ins, r)))
             for lit in lit_values(k, s, d):
                 for name, f in fns:
                     for shape in ("LV", "VL"):
